@@ -77,7 +77,7 @@ theorem Oracle.newCommitTs_managed (o : Oracle) (t : Txn) (hm : o.isManaged = tr
   · rfl
   · rw [if_neg (by simp [hm])]
 
-theorem ReachM.inv {n : Nat} {s : Sys} (h : Reach true true n s) : MgdInv s := by
+theorem ReachM.inv {n : Nat} {s : Sys} (h : OReach true true n s) : MgdInv s := by
   induction h with
   | init =>
     exact ⟨rfl, rfl, Nat.le_refl _, by simp [Sys.opened], by simp [Sys.opened, Oracle.opened]⟩
